@@ -81,12 +81,20 @@ Ctl(c, at, envLen) == [c |-> c, at |-> at, envLen |-> envLen, ph |-> "body", pen
 Frame(clo, pc, env, self, mod) ==
     [clo |-> clo, pc |-> pc, env |-> env, k |-> <<>>, vs |-> <<>>, ctl |-> <<>>, self |-> self, mod |-> mod, line |-> pc]
 
-Fiber(frames, st) == [frames |-> frames, st |-> st, caller |-> 0]
+(* a fiber: its frames (empty = finished), the fiber that called it (0 = none: new, suspended, or the
+   main fiber), and `fresh`: the saved ip of its first frame is still the start of the code, which is
+   what ObjFiber::is_new() looks at (it stays so until that frame calls a closure or the fiber is
+   switched away from) *)
+Fiber(frames, st) == [frames |-> frames, st |-> st, caller |-> 0, fresh |-> TRUE, clo |-> 0]
+Cls(name) == [k |-> "cls", v |-> name]
+BuiltinClasses == {"Fiber", "Object", "Error", "RuntimeError", "AttributeError", "IndexError", "ImportError", "NameError",
+                   "TypeError", "ValueError", "StopIter"}
 
 InitMachine(p) ==
     [prog |-> p,
      store |-> <<>>,
-     glob |-> [mod \in {"main"} |-> [x \in {"print", "type", "clock"} |-> Nat_(x)]],
+     glob |-> [mod \in {"main"} |-> [x \in {"print", "type", "clock"} \cup BuiltinClasses |->
+                                      IF x \in BuiltinClasses THEN Cls(x) ELSE Nat_(x)]],
      fibers |-> <<Fiber(<<Frame(0, 1, <<>>, Nil, "main")>>, "run")>>,
      cur |-> 1,
      out |-> <<>>,
@@ -130,6 +138,7 @@ Show(m, v, seen) ==
       [] v.k \in {"num", "flt"} -> NumText(v)
       [] v.k = "str" -> v.v
       [] v.k = "nat" -> "<built-in fn " \o v.v \o ">"
+      [] v.k = "cls" -> "<class " \o v.v \o ">"
       [] v.k = "ref" ->
          LET o == m.store[v.v] IN
          CASE o.k = "vec" -> (IF v.v \in seen THEN "[...]" ELSE "[" \o ShowSeq(m, o.es, 1, seen \cup {v.v}) \o "]")
@@ -138,6 +147,7 @@ Show(m, v, seen) ==
            [] o.k = "range" -> "Range(" \o ToString(o.a) \o ", " \o ToString(o.b) \o ")"
            [] o.k = "clo" -> "<fn " \o o.name \o " @ [MEMADDR]>"
            [] o.k = "inst" -> "<" \o o.cls \o " instance @ [MEMADDR]>"
+           [] o.k = "fiber" -> "<fiber @ [MEMADDR]>"
            [] o.k = "iter" -> (IF o.kind = "range" THEN "ObjRangeIter instance"
                                ELSE "<Obj" \o (IF o.kind = "vec" THEN "Vec" ELSE "Tuple") \o "Iter instance @ [MEMADDR]>")
            [] OTHER -> "<?>"
@@ -341,7 +351,8 @@ CallValue(m, f, args, self) ==
          ELSE LET b == BindParams(m, c.env, c.ps, args, 1)
                   fr0 == Frame(f.v, IF c.lam THEN 0 ELSE c.at + 1, b.env, self, c.mod)
                   fr1 == IF c.lam THEN [fr0 EXCEPT !.k = <<Ev(c.body), It("ret")>>, !.line = c.at] ELSE fr0
-              IN [b.m EXCEPT !.fibers[m.cur].frames = Append(CurFiber(m).frames, fr1), !.brk = TRUE]
+              IN [b.m EXCEPT !.fibers[m.cur].frames = Append(CurFiber(m).frames, fr1), !.brk = TRUE,
+                             !.fibers[m.cur].fresh = IF NFrames(m) = 1 THEN FALSE ELSE @]
     ELSE IF f.k = "nat" THEN
          CASE f.v = "print" ->
                 IF Len(args) # 1 THEN RaiseErr(m, Err("TypeError", "Expected one argument to 'print'."))
@@ -395,6 +406,53 @@ Invoke(m, r, name, args) ==
                 ELSE LET es == m.store[it.src].es IN
                      IF it.pos >= Len(es) THEN LET s == StopIterV(m) IN Ret(s.m, s.v)
                      ELSE Ret([m EXCEPT !.store[r.v].pos = it.pos + 1], es[it.pos + 1])
+           [] OTHER -> RaiseErr(m, AttrErr(name))
+    ELSE IF r.k = "cls" /\ r.v = "Fiber" THEN
+         CASE name = "new" ->
+                IF Arity(1) THEN RaiseErr(m, ParamErr(1, n))
+                ELSE IF ~IsKind(m, args[1], "clo") THEN
+                     RaiseErr(m, Err("TypeError", "Expected a function but found '" \o Text(m, args[1]) \o "'."))
+                ELSE IF Len(Obj(m, args[1]).ps) > 1 THEN
+                     RaiseErr(m, Err("ValueError", "Fiber expects a closure that accepts at most 1 parameter."))
+                ELSE LET fidx == Len(m.fibers) + 1
+                         m2 == [Alloc(m, [k |-> "fiber", idx |-> fidx]) EXCEPT
+                                  !.fibers = Append(m.fibers, [Fiber(<<>>, "new") EXCEPT !.clo = args[1].v])]
+                     IN Ret(m2, Ref(NewAddr(m)))
+           [] name = "yield" ->
+                IF n > 1 THEN RaiseErr(m, Err("TypeError", "Expected at most 1 parameter but found " \o ToString(n) \o "."))
+                ELSE LET me == CurFiber(m) IN
+                     IF me.caller = 0 THEN RaiseErr(m, Err("RuntimeError", "Cannot yield from module-level code."))
+                     ELSE \* unload_fiber: back to the caller, whose pending `call` evaluates to the yielded value
+                          LET v == IF n = 1 THEN args[1] ELSE Nil
+                              c == me.caller
+                              m2 == [m EXCEPT !.fibers[m.cur].caller = 0, !.fibers[m.cur].fresh = FALSE, !.cur = c, !.brk = TRUE]
+                          IN SetFrame(m2, Push(CurFrame(m2), v))
+           [] OTHER -> RaiseErr(m, AttrErr(name))
+    ELSE IF IsKind(m, r, "fiber") THEN
+         LET fi == Obj(m, r).idx
+             fb == m.fibers[fi]
+             started == fb.frames # <<>> \/ fb.st # "new"
+             isNew == (fb.st = "new") \/ (fb.fresh /\ Len(fb.frames) = 1)
+             clo == m.store[fb.clo]
+         IN
+         CASE name = "has_finished" ->
+                IF Arity(0) THEN RaiseErr(m, ParamErr(0, n)) ELSE Ret(m, B(fb.st # "new" /\ fb.frames = <<>>))
+           [] name = "call" ->
+                IF isNew /\ n # Len(clo.ps) THEN RaiseErr(m, ParamErr(Len(clo.ps), n))
+                ELSE IF ~isNew /\ n > 1 THEN RaiseErr(m, Err("TypeError", "Expected at most 1 parameter but found " \o ToString(n) \o "."))
+                ELSE IF fb.st # "new" /\ fb.frames = <<>> THEN RaiseErr(m, Err("RuntimeError", "Cannot call a finished fiber."))
+                ELSE IF fb.caller # 0 \/ fi = 1 THEN RaiseErr(m, Err("RuntimeError", "Cannot call a fiber that has already been called."))
+                ELSE IF fb.st = "new" THEN
+                     \* first call: the closure's frame, parameter bound to the argument
+                     LET b == BindParams(m, clo.env, clo.ps, args, 1)
+                         fr0 == Frame(fb.clo, IF clo.lam THEN 0 ELSE clo.at + 1, b.env, Nil, clo.mod)
+                         fr1 == IF clo.lam THEN [fr0 EXCEPT !.k = <<Ev(clo.body), It("ret")>>, !.line = clo.at] ELSE fr0
+                     IN [b.m EXCEPT !.fibers[fi].frames = <<fr1>>, !.fibers[fi].st = "run", !.fibers[fi].caller = m.cur,
+                                    !.fibers[m.cur].fresh = FALSE, !.cur = fi, !.brk = TRUE]
+                ELSE \* resume: the pending yield expression evaluates to the argument (nil if omitted)
+                     LET v == IF n = 1 THEN args[1] ELSE Nil
+                         m2 == [m EXCEPT !.fibers[fi].caller = m.cur, !.fibers[m.cur].fresh = FALSE, !.cur = fi, !.brk = TRUE]
+                     IN SetFrame(m2, Push(CurFrame(m2), v))
            [] OTHER -> RaiseErr(m, AttrErr(name))
     ELSE RaiseErr(m, AttrErr(name))
 
@@ -524,6 +582,11 @@ Micro(m) ==
                  SetFrame(m2, [fr1 EXCEPT !.vs = Pop(vs), !.ctl = Pop(fr.ctl), !.env = SubSeq(fr.env, 1, e.envLen),
                                           !.pc = EndOf(m.prog, e.at) + 1])
             ELSE SetFrame(m2, [fr1 EXCEPT !.vs = Pop(vs), !.pc = e.at + 1])
+      [] it.i = "get" ->
+         LET o == Top(vs) IN
+         IF IsKind(m, o, "inst") /\ it.a \in DOMAIN Obj(m, o).fields THEN Replace(1, Obj(m, o).fields[it.a])
+         ELSE IF IsKind(m, o, "inst") THEN Fail(AttrErr(it.a))
+         ELSE [Finish(m, FALSE, "OutOfModel", <<>>) EXCEPT !.oom = TRUE]      \* bound natives are not modelled
       [] it.i = "fmt" -> IF Top(vs).k = "str" THEN m1 ELSE Replace(1, S(Text(m, Top(vs))))
       [] it.i = "mkstr" ->
          LET RECURSIVE Cat(_)
@@ -606,8 +669,11 @@ RunItems(m, fuel) ==
 
 (* the active fiber has no frames left: its body returned *)
 FiberDone(m) ==
-    IF CurFiber(m).caller = 0 THEN Finish(m, TRUE, "", <<>>)
-    ELSE Finish(m, FALSE, "Stuck", <<"fibers not modelled here">>)
+    IF m.cur = 1 THEN Finish(m, TRUE, "", <<>>)
+    ELSE \* return_impl of the fiber's last frame: unload_fiber, the caller's `call` gets the return value
+         LET c == CurFiber(m).caller
+             m2 == [m EXCEPT !.fibers[m.cur].caller = 0, !.cur = c, !.brk = TRUE]
+         IN SetFrame(m2, Push(CurFrame(m2), m.retv))
 
 Step(m) ==
     LET m0 == [m EXCEPT !.brk = FALSE, !.n = m.n + 1] IN
